@@ -119,7 +119,8 @@ func runC06(c *Ctx) {
 	for _, s := range sites {
 		if s.Fn.ID == "pkg/core.metaObject.writeMetadata" {
 			// wrapper: must forward both key and flag parameters unchanged
-			c.check(s.Mode == "param:noOverwrite" && s.Kind == "param:pth", "create-if-absent.wrapper-forwards", s.Key, p.Pos(s.Call.Pos()),
+			wsig := s.Fn.Obj.Type().(*types.Signature)
+			c.check(wsig.Params().Len() == 3 && s.Mode == "param:"+wsig.Params().At(1).Name() && s.Kind == "param:"+wsig.Params().At(0).Name(), "create-if-absent.wrapper-forwards", s.Key, p.Pos(s.Call.Pos()),
 				"writeMetadata forwards its noOverwrite and pth parameters unchanged to "+shortCallee(s.Callee),
 				"writeMetadata does not forward its parameters unchanged (mode="+s.Mode+", key="+s.Kind+"): callers' NoOverWrite is not what reaches the store")
 			continue
@@ -242,7 +243,7 @@ func runC06(c *Ctx) {
 // checkSilentSkipOnlyNotExists: in a worker loop `for k := range input { v, err := f(k); if err != nil { ... continue } ; output <- ok }`
 // every path from the non-nil branch back to the loop head that sends nothing must pass the true edge of an
 // errors.Is(err, …ErrNotExists) test.
-func checkSilentSkipOnlyNotExists(c *Ctx, b *Body, rule string) {
+func checkSilentSkipOnlyNotExists(c *Ctx, b *Body, rule string, requireSkip ...bool) {
 	info := b.Info()
 	p := c.P
 	n := 0
@@ -291,6 +292,10 @@ func checkSilentSkipOnlyNotExists(c *Ctx, b *Body, rule string) {
 			"a key is skipped silently under condition `"+exprString(ifs.Cond)+"`, which is not the ErrNotExists test")
 		return true
 	})
+	if n == 0 && len(requireSkip) > 0 && !requireSkip[0] {
+		c.ok(rule, b.Key()+":silent-skip", p.Pos(b.Block.Pos()), "no key is skipped silently")
+		return
+	}
 	if n == 0 {
 		c.fail(rule, b.Key()+":silent-skip", p.Pos(b.Block.Pos()), "no ErrNotExists skip found: bundles whose descriptor is missing are not skipped by the listing (interrupted uploads make listings fail or appear)")
 	}
